@@ -1,6 +1,7 @@
 import GJS.Props.FlatGen
 import GJS.Props.Exact
 import GJS.Props.ExactYaml
+import GJS.Props.C14
 /-
   END TO END on the flat fragment: generator model + run-time model against the reference semantics, for every schema
   of the fragment and every document — `flat_end_to_end` (JSON), `flat_end_to_end_yaml` (YAML); `flatPlainB_sound`
@@ -271,4 +272,310 @@ example : flatPlainB exFlat = true ∧ stdCfgB { rootType := "Root" } = true := 
 #print axioms flat_end_to_end
 #print axioms flat_end_to_end_checked
 #print axioms flat_end_to_end_yaml
+/-! ### … with value constraints on the members -/
+
+theorem fname_ne_empty (n : String) : fname n ≠ "" := by
+  unfold fname identifierizeStr runesToString
+  intro h
+  have h2 := congrArg String.toList h
+  simp only [String.toList_ofList] at h2
+  have h3 : List.map (fun r : RInfo => Char.ofNat r.cp) (identifierize (List.map (fun c : String => c.toList.map asciiInfo) []) (n.toList.map asciiRune)) = [] := by
+    simpa using h2
+  exact C14.never_empty _ _ (List.map_eq_nil_iff.mp h3)
+
+/-- the keywords of a member fit its type, and every stated numeric keyword is one the generator emits a check for -/
+def kwOK (p : Schema) : Prop :=
+  p.node.hasNot = false ∧
+  (p.node.types = ["string"] → hasNumTop p = false ∧ hasArrTop p = false) ∧
+  (p.node.types = ["boolean"] → topFree p = true) ∧
+  ((p.node.types = ["number"] ∨ p.node.types = ["integer"]) →
+     hasStrTop p = false ∧ hasArrTop p = false ∧ p.node.xmin ≠ .other ∧ p.node.xmax ≠ .other ∧
+     (hasNumTop p = true → (normLo p.node.minimum p.node.xmin).1.isSome = true ∨ (normHi p.node.maximum p.node.xmax).1.isSome = true))
+
+structure FlatFull (t : Schema) : Prop extends FlatObj t where
+  hasNot : t.node.hasNot = false
+  multipleOf : t.node.multipleOf = none
+  format : t.node.format = ""
+  keysNodup : (akeys t.node.props).Nodup
+  reqDeclared : ∀ k ∈ t.node.required, k ∈ akeys t.node.props
+  kws : ∀ p ∈ t.node.props, kwOK p.2
+  small : t.node.props.length ≤ 31
+  rootFree : topFree t = true
+
+theorem find_field_name (cfg : Config) (t : Schema) (k : String) : ∀ ns : List String, k ∈ ns → (ns.map fname).Nodup →
+    (ns.map (fieldOf cfg t)).find? (fun f => f.name = fname k) = some (fieldOf cfg t k) := by
+  intro ns
+  induction ns with
+  | nil => intro h; cases h
+  | cons n rest ih =>
+    intro hk hnd
+    by_cases hn : n = k
+    · subst hn; simp [List.find?, fieldOf]
+    · have hkr : k ∈ rest := by rcases List.mem_cons.mp hk with e | e; exact absurd e.symm hn; exact e
+      have hne : fname n ≠ fname k := by
+        intro he
+        have := (List.nodup_cons.mp hnd).1
+        exact this (by rw [he]; exact List.mem_map_of_mem hkr)
+      have := ih hkr (List.nodup_cons.mp hnd).2
+      simp [List.find?, fieldOf, hne]
+      simpa [fieldOf] using this
+
+theorem lookup_prop (t : Schema) (h : FlatFull t) (n : String) (hn : n ∈ sortedKeys t.node.props) :
+    alookup n t.node.props = some (propOf t n) ∧ FlatProp (propOf t n) ∧ kwOK (propOf t n) := by
+  obtain ⟨⟨prop, hprop, hflat⟩, _⟩ := h.names n hn
+  have hp : propOf t n = prop := by simp [propOf, hprop]
+  rw [hp]
+  exact ⟨hprop, hflat, h.kws (n, prop) (alookup_mem n prop _ hprop)⟩
+
+theorem valJ_prop (cfg : Config) (t : Schema) (h : FlatFull t) (env : Env) (n : String) (hn : n ∈ sortedKeys t.node.props)
+    (v : Validator) (hv : v ∈ propVs (fname n) (propOf t n) (!t.node.required.contains n)) :
+    valJustified env (flatFields cfg t) t v = true := by
+  obtain ⟨hlk, hflat, hkw⟩ := lookup_prop t h n hn
+  have hfind := find_field_name cfg t n _ hn h.distinct
+  have hne := fname_ne_empty n
+  obtain ⟨ht, href, _, _, _, _, _, _, _, hmul⟩ := hflat
+  unfold propVs at hv
+  rcases ht with ht | ht | ht | ht
+  · simp only [ht] at hv
+    split at hv
+    · simp only [List.mem_singleton] at hv; subst hv
+      by_cases hr : n ∈ t.node.required <;>
+        simp [valJustified, strJustified, flatFields, hfind, hne, fieldOf, hlk, href, ftyOf, scalarTy, ht, strBase, hr]
+    · cases hv
+  · simp only [ht] at hv
+    split at hv
+    · simp only [List.mem_singleton] at hv; subst hv
+      obtain ⟨_, _, hx1, hx2, _⟩ := hkw.2.2.2 (Or.inl ht)
+      by_cases hr : n ∈ t.node.required <;>
+        simp [valJustified, numJustified, flatFields, hfind, hne, fieldOf, hlk, href, ftyOf, scalarTy, ht, numBase, hr, hx1, hx2]
+    · cases hv
+  · simp only [ht] at hv
+    split at hv
+    · simp only [List.mem_singleton] at hv; subst hv
+      obtain ⟨_, _, hx1, hx2, _⟩ := hkw.2.2.2 (Or.inr ht)
+      by_cases hr : n ∈ t.node.required <;>
+        simp [valJustified, numJustified, flatFields, hfind, hne, fieldOf, hlk, href, ftyOf, scalarTy, ht, numBase, hr, hx1, hx2]
+    · cases hv
+  · simp [ht] at hv
+
+theorem mem_flatAllVs (t : Schema) (n : String) (hn : n ∈ sortedKeys t.node.props) (v : Validator)
+    (hv : v ∈ propVs (fname n) (propOf t n) (!t.node.required.contains n)) : v ∈ flatAllVs t := by
+  unfold flatAllVs flatVs
+  exact List.mem_append_right _ (List.mem_flatMap.mpr ⟨n, hn, hv⟩)
+
+theorem all_justified (cfg : Config) (t : Schema) (h : FlatFull t) (env : Env) :
+    ∀ v ∈ flatAllVs t, valJustified env (flatFields cfg t) t v = true := by
+  intro v hv
+  unfold flatAllVs at hv
+  rcases List.mem_append.mp hv with hv | hv
+  · simp only [List.mem_map, flatReq, List.mem_filter] at hv
+    obtain ⟨k, ⟨_, hk⟩, rfl⟩ := hv
+    simpa [valJustified] using hk
+  · unfold flatVs at hv
+    obtain ⟨n, hn, hvn⟩ := List.mem_flatMap.mp hv
+    exact valJ_prop cfg t h env n hn v hvn
+
+theorem covered_prop (t : Schema) (h : FlatFull t) (n : String) (hn : n ∈ sortedKeys t.node.props) :
+    topCovered (flatAllVs t) (fname n) (propOf t n) = true := by
+  obtain ⟨hlk, hflat, hkw⟩ := lookup_prop t h n hn
+  obtain ⟨ht, _, _, _, _, _, _, _, _, hmul⟩ := hflat
+  have hmem := mem_flatAllVs t n hn
+  unfold propVs at hmem
+  unfold topCovered
+  rcases ht with ht | ht | ht | ht
+  · obtain ⟨h1, h2⟩ := hkw.2.1 ht
+    simp only [ht] at hmem
+    by_cases hs : hasStrTop (propOf t n) = true
+    · have hcond : (propOf t n).node.minLength ≠ 0 ∨ (propOf t n).node.maxLength ≠ 0 ∨ (propOf t n).node.pattern ≠ "" := by
+        simp only [hasStrTop, Bool.not_eq_true', Bool.and_eq_false_iff, beq_eq_false_iff_ne, ne_eq] at hs
+        rcases hs with (hs | hs) | hs
+        · exact Or.inl hs
+        · exact Or.inr (Or.inl hs)
+        · exact Or.inr (Or.inr hs)
+      simp only [hcond, if_true] at hmem
+      have := hmem _ (List.mem_singleton.mpr rfl)
+      simp only [h1, h2, hs, Bool.not_false, Bool.true_or, Bool.not_true, Bool.false_or, Bool.true_and, Bool.and_true]
+      exact List.any_eq_true.mpr ⟨_, this, by simp⟩
+    · have hs' : hasStrTop (propOf t n) = false := by simpa using hs
+      simp [h1, h2, hs']
+  · obtain ⟨h1, h2, _, _, hem⟩ := hkw.2.2.2 (Or.inl ht)
+    simp only [ht] at hmem
+    by_cases hs : hasNumTop (propOf t n) = true
+    · have hcond : ({ mult := none, lo := (propOf t n).node.minimum, hi := (propOf t n).node.maximum, xlo := (propOf t n).node.xmin, xhi := (propOf t n).node.xmax, roundToInt := false } : NumCheck).emitsSomething = true := by
+        simp only [NumCheck.emitsSomething, Option.isSome_none, Bool.false_or, Bool.or_eq_true]; exact hem hs
+      simp only [hcond, if_true] at hmem
+      have := hmem _ (List.mem_singleton.mpr rfl)
+      simp only [h1, h2, hs, Bool.not_false, Bool.true_or, Bool.not_true, Bool.false_or, Bool.true_and, Bool.and_true]
+      exact List.any_eq_true.mpr ⟨_, this, by simp⟩
+    · have hs' : hasNumTop (propOf t n) = false := by simpa using hs
+      simp [h1, h2, hs']
+  · obtain ⟨h1, h2, _, _, hem⟩ := hkw.2.2.2 (Or.inr ht)
+    simp only [ht] at hmem
+    by_cases hs : hasNumTop (propOf t n) = true
+    · have hcond : ({ mult := none, lo := (propOf t n).node.minimum, hi := (propOf t n).node.maximum, xlo := (propOf t n).node.xmin, xhi := (propOf t n).node.xmax, roundToInt := true } : NumCheck).emitsSomething = true := by
+        simp only [NumCheck.emitsSomething, Option.isSome_none, Bool.false_or, Bool.or_eq_true]; exact hem hs
+      simp only [hcond, if_true] at hmem
+      have := hmem _ (List.mem_singleton.mpr rfl)
+      simp only [h1, h2, hs, Bool.not_false, Bool.true_or, Bool.not_true, Bool.false_or, Bool.true_and, Bool.and_true]
+      exact List.any_eq_true.mpr ⟨_, this, by simp⟩
+    · have hs' : hasNumTop (propOf t n) = false := by simpa using hs
+      simp [h1, h2, hs']
+  · have htf := hkw.2.2.1 ht
+    simp only [topFree, Bool.and_eq_true, Bool.not_eq_true'] at htf
+    simp [htf.1.1, htf.1.2, htf.2]
+
+theorem propOf_mem' (t : Schema) (h : FlatFull t) (p : String × Schema) (hp : p ∈ t.node.props) : propOf t p.1 = p.2 := by
+  simp [propOf, alookup_of_mem p.1 p.2 t.node.props h.keysNodup hp]
+
+theorem certAll_root_full (cfg : Config) (t : Schema) (h : FlatFull t) (f : Nat) :
+    certAll [rootDecl cfg t] [] (f + 3) (.named "Root") t = true := by
+  have hlen : (flatFields cfg t).length ≤ 31 := by
+    simp only [flatFields, List.length_map, (sortedKeys_perm' t.node.props).length_eq, akeys]; exact h.small
+  have hnames : ((flatFields cfg t).map (·.name)).Nodup := by
+    have : (flatFields cfg t).map (·.name) = (sortedKeys t.node.props).map fname := by
+      simp [flatFields, List.map_map, Function.comp_def, fieldOf]
+    rw [this]; exact h.distinct
+  have hkeys : ((flatFields cfg t).map (·.jsonKey)).Nodup := by
+    have : (flatFields cfg t).map (·.jsonKey) = sortedKeys t.node.props := by
+      simp [flatFields, List.map_map, Function.comp_def, fieldOf]
+    rw [this]; exact (sortedKeys_perm' t.node.props).nodup_iff.mpr h.keysNodup
+  have haddl : ((flatFields cfg t).find? (fun fl => fl.name = "AdditionalProperties")) = none := by
+    rw [List.find?_eq_none]
+    intro fl hfl
+    simp only [flatFields, List.mem_map] at hfl
+    obtain ⟨n, hn, rfl⟩ := hfl
+    simpa [fieldOf] using (h.names n hn).2.2.2
+  have hjust : (flatAllVs t).all (valJustified [rootDecl cfg t] (flatFields cfg t) t) = true :=
+    List.all_eq_true.mpr (all_justified cfg t h _)
+  rw [certAll]
+  simp only [h.ref, ne_eq, not_true_eq_false, if_false, resolve_root]
+  simp only [rootDecl, Decl.hasMethod] at hjust ⊢
+  simp [GoTy.isFmt, h.types, h.enum, h.allOf, h.anyOf, h.hasNot, h.addl, haddl, hlen, hnames, hkeys, hjust]
+  refine ⟨?_, ?_⟩
+  · intro fl hfl
+    simp only [flatFields, List.mem_map] at hfl
+    obtain ⟨n, hn, rfl⟩ := hfl
+    simpa [fieldOf] using (mem_sortedKeys _ _).mp hn
+  · intro a b hab
+    have ha : a ∈ sortedKeys t.node.props := (mem_sortedKeys _ _).mpr (List.mem_map_of_mem (f := (·.1)) hab)
+    have hb : propOf t a = b := propOf_mem' t h (a, b) hab
+    obtain ⟨_, hflat, _⟩ := lookup_prop t h a ha
+    rw [bind_field cfg t a ha]
+    have hc : ∀ env, certAll env [] (f + 2) (ftyOf t a) b = true := fun env => by
+      have := certAll_field env [] t a hflat f
+      rwa [hb] at this
+    simp [fieldOf, hc]
+
+theorem certCov_root_full (cfg : Config) (t : Schema) (h : FlatFull t) (f : Nat) :
+    certCov [rootDecl cfg t] [] (f + 3) (.named "Root") t = true := by
+  rw [certCov]
+  simp only [h.ref, ne_eq, not_true_eq_false, if_false, resolve_root, h.multipleOf, h.format]
+  simp only [rootDecl]
+  simp
+  refine ⟨?_, ?_⟩
+  · intro k hk
+    refine ⟨.required k, ?_, by simp⟩
+    unfold flatAllVs
+    refine List.mem_append_left _ (List.mem_map.mpr ⟨k, ?_, rfl⟩)
+    simp only [flatReq, List.mem_filter]
+    exact ⟨(mem_sortedKeys _ _).mpr (h.reqDeclared k hk), by simpa using hk⟩
+  · intro a b hab
+    have ha : a ∈ sortedKeys t.node.props := (mem_sortedKeys _ _).mpr (List.mem_map_of_mem (f := (·.1)) hab)
+    have hb : propOf t a = b := propOf_mem' t h (a, b) hab
+    obtain ⟨_, hflat, hkw⟩ := lookup_prop t h a ha
+    rw [bind_field cfg t a ha]
+    have hc : ∀ env, certCov env [] (f + 2) (ftyOf t a) b = true := fun env => by
+      have := certCov_field env [] t a hflat hkw.1 f
+      rwa [hb] at this
+    have hcov := covered_prop t h a ha
+    rw [hb] at hcov
+    simp [fieldOf, hc, hcov]
+
+/-- **END TO END with value constraints**: for every flat object schema whose members carry numeric bounds (both drafts'
+    spellings), string length limits and patterns as their types allow, the generated program accepts exactly the valid
+    documents -/
+theorem flat_end_to_end_full (cfg : Config) (hc : stdCfg cfg) (t : Schema) (h : FlatFull t) (id : String) :
+    ∃ out, Gen.run cfg { id := id, hasRoot := true, root := t, defs := [] } = .ok out ∧
+      ∀ j, DocClean out.decls j → (Acc .json out.decls (.named "Root") j ↔ ∃ F, Spec.valid F [] t j = true) := by
+  have hlen : (sortedKeys t.node.props).length ≤ 190 := by
+    rw [(sortedKeys_perm' t.node.props).length_eq]; simp only [akeys, List.length_map]; have := h.small; omega
+  obtain ⟨out, hrun, hdecls⟩ := run_flat cfg hc t h.toFlatObj id hlen
+  refine ⟨out, hrun, ?_⟩
+  intro j hclean
+  rw [hdecls] at hclean ⊢
+  exact certified_exact [rootDecl cfg t] [] 3 (.named "Root") t (certAll_root_full cfg t h 0) (certCov_root_full cfg t h 0) h.ref h.rootFree j hclean
+
+theorem flat_end_to_end_full_yaml (cfg : Config) (hc : stdCfg cfg) (t : Schema) (h : FlatFull t) (id : String) :
+    ∃ out, Gen.run cfg { id := id, hasRoot := true, root := t, defs := [] } = .ok out ∧
+      ∀ j, DocClean out.decls j → C17.WC out.decls (.named "Root") j →
+        (Acc .yaml out.decls (.named "Root") j ↔ ∃ F, Spec.valid F [] t j = true) := by
+  have hlen : (sortedKeys t.node.props).length ≤ 190 := by
+    rw [(sortedKeys_perm' t.node.props).length_eq]; simp only [akeys, List.length_map]; have := h.small; omega
+  obtain ⟨out, hrun, hdecls⟩ := run_flat cfg hc t h.toFlatObj id hlen
+  refine ⟨out, hrun, ?_⟩
+  intro j hclean hwc
+  rw [hdecls] at hclean hwc ⊢
+  exact C17.certified_exact_yaml [rootDecl cfg t] [] 3 (.named "Root") t (certAll_root_full cfg t h 0) (certCov_root_full cfg t h 0) h.ref h.rootFree j hclean hwc
+
+theorem kwOKB_sound (p : Schema) (hp : FlatProp p) (h : kwOKB p = true) : kwOK p := by
+  simp only [kwOKB, Bool.and_eq_true, Bool.not_eq_true'] at h
+  obtain ⟨hn, hrest⟩ := h
+  refine ⟨hn, ?_, ?_, ?_⟩
+  · intro ht
+    simp only [ht, beq_self_eq_true, if_true, Bool.and_eq_true, Bool.not_eq_true'] at hrest
+    exact hrest
+  · intro ht
+    have hne : (p.node.types == ["string"]) = false := by rw [ht]; decide
+    simp only [hne, Bool.false_eq_true, if_false, ht, beq_self_eq_true, if_true] at hrest
+    exact hrest
+  · intro ht
+    have hne1 : (p.node.types == ["string"]) = false := by rcases ht with ht | ht <;> (rw [ht]; decide)
+    have hne2 : (p.node.types == ["boolean"]) = false := by rcases ht with ht | ht <;> (rw [ht]; decide)
+    simp only [hne1, hne2, Bool.false_eq_true, if_false, Bool.and_eq_true, Bool.not_eq_true', decide_eq_true_eq,
+      Bool.or_eq_true] at hrest
+    obtain ⟨⟨⟨⟨h1, h2⟩, h3⟩, h4⟩, h5⟩ := hrest
+    refine ⟨h1, h2, h3, h4, ?_⟩
+    intro hnum
+    rcases h5 with (h5 | h5) | h5
+    · rw [hnum] at h5; cases h5
+    · exact Or.inl h5
+    · exact Or.inr h5
+
+theorem flatFullB_sound (t : Schema) (h : flatFullB t = true) : FlatFull t := by
+  simp only [flatFullB, Bool.and_eq_true, beq_iff_eq, Option.isNone_iff_eq_none, List.isEmpty_iff, Bool.not_eq_true',
+    decide_eq_true_eq, List.all_eq_true] at h
+  obtain ⟨⟨⟨⟨⟨⟨⟨⟨⟨⟨⟨⟨⟨⟨⟨⟨⟨⟨⟨h1, h2⟩, h3⟩, h4⟩, h5⟩, h6⟩, h7⟩, h8⟩, h9⟩, h10⟩, h11⟩, h12⟩, h13⟩, h14⟩, h15⟩, h16⟩, h17⟩, h18⟩, h19⟩, h20⟩ := h
+  have hnames : ∀ n ∈ sortedKeys t.node.props, NameOK t n := fun n hn => nameOKB_sound t n (h11 n hn)
+  exact {
+    types := h1, ref := h2, enum := h3, ext := h4, anyOf := h5, allOf := h6, addl := h7, anyOfCount := h8, subElem := h9
+    props := by intro he; rw [he] at h10; simp at h10
+    names := hnames
+    distinct := h12, hasNot := h13, multipleOf := h14, format := h15, keysNodup := h16
+    reqDeclared := fun k hk => by simpa using h17 k hk
+    kws := fun p hp => by
+      have hk : p.1 ∈ sortedKeys t.node.props := (mem_sortedKeys _ _).mpr (List.mem_map_of_mem (f := (·.1)) hp)
+      obtain ⟨⟨prop, hprop, hflat⟩, _⟩ := hnames p.1 hk
+      have : prop = p.2 := nodup_keys_unique p.1 prop p.2 _ h16 (alookup_mem p.1 prop _ hprop) hp
+      subst this
+      exact kwOKB_sound _ hflat (h18 p hp)
+    small := h19, rootFree := h20 }
+
+/-- the form the driver's count (`CERT flatc=`) refers to -/
+theorem flat_end_to_end_full_checked (cfg : Config) (t : Schema) (id : String) (hc : stdCfgB cfg = true) (h : flatFullB t = true) :
+    ∃ out, Gen.run cfg { id := id, hasRoot := true, root := t, defs := [] } = .ok out ∧
+      ∀ j, DocClean out.decls j → (Acc .json out.decls (.named "Root") j ↔ ∃ F, Spec.valid F [] t j = true) :=
+  flat_end_to_end_full cfg (stdCfgB_sound cfg hc) t (flatFullB_sound t h) id
+
+/-- non-vacuity: members with bounds, limits and a pattern -/
+def exFlatC : Schema := .mk { types := ["object"], required := ["name"], props := [
+  ("name", .mk { types := ["string"], minLength := 1, maxLength := 8, pattern := "^a" }),
+  ("age", .mk { types := ["integer"], minimum := some 0, maximum := some 150 }),
+  ("score", .mk { types := ["number"], xmin := .num 0 })] }
+
+theorem exFlatC_keys : sortedKeys exFlatC.node.props = ["age", "name", "score"] := by
+  simp [exFlatC, Schema.node, sortedKeys, List.mergeSort]
+
+example : flatFullB exFlatC = true := by
+  unfold flatFullB; rw [exFlatC_keys]; decide +kernel
+
 end GJS.Props.Flat
